@@ -132,7 +132,7 @@ static err_t btokSign(octet sig[], const void* buf, size_t count,
 		beltHashStepH(buf, count, state);
 		beltHashStepG2(hash, privkey_len, state);
 		code = bignOidToDER(oid_der, &oid_len, "1.2.112.0.2.0.34.101.31.81");
-		ERR_CALL_HANDLE(code, blobClose(state));
+		ERR_CALL_HANDLE(code, blobClose(stack));
 		ASSERT(oid_len == 11);
 	}
 	else
@@ -142,7 +142,7 @@ static err_t btokSign(octet sig[], const void* buf, size_t count,
 		bashHashStepG(hash, privkey_len, state);
 		code = bignOidToDER(oid_der, &oid_len, privkey_len == 48 ? 
 			"1.2.112.0.2.0.34.101.77.12" : "1.2.112.0.2.0.34.101.77.13");
-		ERR_CALL_HANDLE(code, blobClose(state));
+		ERR_CALL_HANDLE(code, blobClose(stack));
 		ASSERT(oid_len == 11);
 	}
 	// получить случайные числа
@@ -191,7 +191,7 @@ static err_t btokVerify(const void* buf, size_t count, const octet sig[],
 		beltHashStepH(buf, count, state);
 		beltHashStepG2(hash, pubkey_len / 2, state);
 		code = bignOidToDER(oid_der, &oid_len, "1.2.112.0.2.0.34.101.31.81");
-		ERR_CALL_HANDLE(code, blobClose(state));
+		ERR_CALL_HANDLE(code, blobClose(stack));
 		ASSERT(oid_len == 11);
 	}
 	else
@@ -201,7 +201,7 @@ static err_t btokVerify(const void* buf, size_t count, const octet sig[],
 		bashHashStepG(hash, pubkey_len / 2, state);
 		code = bignOidToDER(oid_der, &oid_len, pubkey_len == 96 ? 
 			"1.2.112.0.2.0.34.101.77.12" : "1.2.112.0.2.0.34.101.77.13");
-		ERR_CALL_HANDLE(code, blobClose(state));
+		ERR_CALL_HANDLE(code, blobClose(stack));
 		ASSERT(oid_len == 11);
 	}
 	// проверить открытый ключ
